@@ -90,6 +90,37 @@ def quoted_items_are_opaque(ck, F):
                "INPUT reply like \"Smith, John\")" % "; ".join(sorted(set(bad))), b.span)
 
 
+def quoted_items_stay_text(ck, F):
+    """A quoted DATA item (or INPUT reply) is text whatever it spells: a path of DataParser::push_current_element that produces a
+    Number has first established that the parser is not inside quotes.  Trying every item as a number first turns the reply
+    `"12"` into 12 (no REENTER for a numeric variable) and `" 007 "` into 7 for a string variable."""
+    from lib import path_records
+    b = F.one("DataParser::push_current_element")
+    if b is None:
+        ck.missing("C14:DATA-NUMBER:only-unquoted", "DataParser::push_current_element")
+        return
+    n = 0
+    bad = 0
+    for r in path_records(b):
+        if not any(a[0].endswith("data::DataElement") and a[1] == "Number" for a in r["aggs"]):
+            continue
+        n += 1
+        ok = False
+        for d in r["decisions"]:
+            t = d[0]
+            if "state" not in t:
+                continue
+            if ("InDoubleQuotedString" in t and (("ne(" in t and d[2] is True) or ("eq(" in t and d[2] is False))) or d[2] == "Normal" or \
+                    ("Normal" in t and (("eq(" in t and d[2] is True) or ("ne(" in t and d[2] is False))):
+                ok = True
+        if not ok:
+            bad += 1
+    ck.require(n > 0 and bad == 0, "C14:DATA-NUMBER:only-unquoted", "DATA renderer vs parser",
+               "every path that yields a Number has tested that the item is not quoted (%d path(s))" % n,
+               "DataParser::push_current_element can classify an item as a number without having established that it is unquoted "
+               "(%d of %d paths): a quoted item that spells a numeral stops being text" % (bad, n), b.span)
+
+
 def data_parser_stops(ck, F):
     from lib import path_records
     """The DATA parser ends at the first colon outside quotes: once the parser reports `is_finished`, parse_data_until_colon feeds
@@ -214,9 +245,14 @@ def run(ck, F, E):
                "string literals render between double quotes", "StringLiteral renders as %r" % dt.get("StringLiteral", {}).get("pieces"))
     string_text_rule(ck, F)
     listing_not_rewritten(ck, F)
+    # the listing that is reloaded must contain every stored line (C04's rule, a necessary condition here as well)
+    import framework
+    from props import C04
+    C04.list_complete(framework.Rekeyed(ck, "C04", "C14:ALL"), F)
     data_cursor_rule(ck, F)
     data_parser_stops(ck, F)
     quoted_items_are_opaque(ck, F)
+    quoted_items_stay_text(ck, F)
     ck.require(dt.get("Symbol", {}).get("pieces") == [None] and dt.get("NumericLiteral", {}).get("pieces") == [None],
                "C14:SPECIAL:Symbol/Numeric", "inverse tables", "symbols and numerals render as their Display text only",
                "Symbol / NumericLiteral render with extra text")
